@@ -47,7 +47,7 @@ static std::string hex(const unsigned char *p, size_t n) {
 // data longer than 64 bytes is reported as #<length>:<FNV-1a 64> (same rule in the Lean driver and the oracle)
 static std::string show(const unsigned char *p, size_t n) {
     if (n <= 64) return hex(p, n);
-    uint64_t h = 1469598103934665603ull;
+    uint64_t h = 14695981039346656037ull;
     for (size_t i = 0; i < n; ++i) { h ^= p[i]; h *= 1099511628211ull; }
     char buf[64];
     snprintf(buf, sizeof buf, "#%zu:%016llx", n, static_cast<unsigned long long>(h));
